@@ -34,6 +34,7 @@ def make_array(rc, registry=None):
     recipe keys: dtype (numpy dtype str incl. byte order), shape [rows] or [rows, width],
       kind: 'rand' (seed) | 'vals' (vals: flat list) | 'ramp' (start, step, jitter=[...]) | 'hex' (hex)
       layout: 'C' | 'F' | 'strided' | 'readonly' | 'view'   (default C)
+      specials: [[flat index, 'nan'|'inf'|'-inf'|'-0'], ...] for float dtypes
       skip, rows: optional ints - drop the first `skip` rows, then keep only the first `rows` rows
     `registry`, if given, receives (label, base buffer) pairs for caller-buffer checksums.
     """
@@ -62,6 +63,11 @@ def make_array(rc, registry=None):
     else:
         raise ValueError('unknown array kind %r' % kind)
     a = a.reshape(shape)
+    if rc.get('specials') and dt.kind == 'f' and a.size:
+        # non-finite and signed-zero values at given flat positions (gaps in real logs)
+        flat = a.reshape(-1)
+        for pos, what in rc['specials']:
+            flat[int(pos) % flat.size] = {'nan': np.nan, 'inf': np.inf, '-inf': -np.inf, '-0': -0.0}[what]
     skip = rc.get('skip')
     if skip:
         a = a[skip:]
